@@ -1469,4 +1469,291 @@ example : writeOk demoModS ['b'] ∧ writeOk demoModW ['b'] ∧ (demoModW.write 
     (demoModS.write ['b']).rolled = false := by
   unfold writeOk InRange; decide
 
+/-! ## 6. the `…Ok` hypotheses of the SpooledStringIO ties hold in every COHERENT model state (`CohAt` / `Coh`, the
+invariant of `C18/Text.lean`): no read of a coherent object hits a decoding error and every model loop ends by its exit -/
+
+theorem goodRead_of_coh (s : SStr) (text : List Char) (a : Nat) (h : CohAt s text a) (size : Option Nat) :
+    goodRead s size = true := by
+  obtain ⟨X, p, hrc, _⟩ := (SStr.read_spec s text a h size).2.1.rc
+  have hg : (s.read size).2.rd.bad = false := hrc.good
+  simp only [goodRead, Bool.not_eq_true']
+  exact hg
+
+theorem goodLine_of_coh (s : SStr) (text : List Char) (a : Nat) (h : CohAt s text a) : goodLine s = true := by
+  obtain ⟨X, p, hrc, _⟩ := (SStr.codecLine_spec s text a h).2.1.rc
+  have hg : s.codecLine.2.rd.bad = false := hrc.good
+  simp only [goodLine, Bool.not_eq_true']
+  exact hg
+
+theorem travOk_of_coh (fuel : Nat) (s : SStr) (text : List Char) (cur dest : Nat)
+    (h : CohAt s text cur) (hd : dest ≤ text.length) (hc : cur ≤ dest) (hch : 0 < s.chunk)
+    (hf : dest - cur + 1 ≤ fuel) : travOk fuel s cur dest = true := by
+  induction fuel generalizing s cur with
+  | zero => omega
+  | succ fuel ih =>
+    unfold travOk
+    by_cases h1 : cur = dest
+    · rw [if_pos h1]
+    · rw [if_neg h1]
+      by_cases h2 : cur + s.chunk > dest
+      · rw [if_pos h2]; exact goodRead_of_coh s text cur h _
+      · rw [if_neg h2]
+        have hr := SStr.read_spec s text cur h (some s.chunk)
+        have hl := SStr.read_some_len s text cur s.chunk h (by omega)
+        rw [hl] at hr
+        have := ih (s.read (some s.chunk)).2 (cur + s.chunk) hr.2.1 (by omega) (by rw [hr.2.2.2]; exact hch) (by omega)
+        simp [goodRead_of_coh s text cur h, this]
+
+theorem lenOk_of_coh (fuel : Nat) (s : SStr) (text : List Char) (cur : Nat)
+    (h : CohAt s text cur) (hch : 0 < s.chunk) (hf : text.length - cur + 1 ≤ fuel) : lenOk fuel s = true := by
+  induction fuel generalizing s cur with
+  | zero => omega
+  | succ fuel ih =>
+    unfold lenOk
+    have hr := SStr.read_spec s text cur h (some s.chunk)
+    by_cases he : (s.read (some s.chunk)).1.isEmpty = true
+    · simp [goodRead_of_coh s text cur h, he]
+    · have hpos : 0 < (s.read (some s.chunk)).1.length := by
+        apply List.length_pos_iff.2
+        intro hh; apply he; simp [hh]
+      have hle : cur + (s.read (some s.chunk)).1.length ≤ text.length := hr.2.1.ale
+      have := ih (s.read (some s.chunk)).2 (cur + (s.read (some s.chunk)).1.length) hr.2.1
+        (by rw [hr.2.2.2]; exact hch) (by omega)
+      simp [goodRead_of_coh s text cur h, this]
+
+theorem lenAllOk_of_coh (s : SStr) (text : List Char) (h : Coh s text) (hch : 0 < s.chunk) : lenAllOk s = true := by
+  have h0 := CohAt_bseek0 s text s.tell h
+  have hfuel : text.length - 0 + 1 ≤ s.st.data.length + 2 := by
+    rw [h.data]; have := length_le_blen text; simp only [blen] at this; omega
+  have hl := SStr.lenLoop_spec (s.st.data.length + 2) (s.bseek 0) text 0 0 h0 hch hfuel
+  have h1 := lenOk_of_coh (s.st.data.length + 2) (s.bseek 0) text 0 h0 hch hfuel
+  have h2 := travOk_of_coh (s.tell + 1) ((SStr.lenLoop (s.st.data.length + 2) (s.bseek 0) 0).2.bseek 0) text 0 s.tell
+    (CohAt_bseek0 _ text text.length hl.2.1) h.ale (Nat.zero_le _)
+    (by show 0 < (SStr.lenLoop (s.st.data.length + 2) (s.bseek 0) 0).2.chunk; rw [hl.2.2]; exact hch) (by omega)
+  simp [lenAllOk, h1, h2]
+
+theorem rlOk_of_coh (fuel : Nat) (ret : List Char) (s : SStr) (text : List Char) (a : Nat)
+    (h : CohAt s text a) (hf : (text.drop a).length + 1 ≤ fuel) : rlOk fuel ret s = true := by
+  induction fuel generalizing ret s a with
+  | zero => omega
+  | succ fuel ih =>
+    unfold rlOk
+    by_cases h1 : (ret.isEmpty || endsCRLF ret) = true
+    · rw [if_pos h1]
+    · rw [if_neg h1]
+      have hc := SStr.codecLine_spec s text a h
+      by_cases h2 : s.codecLine.1.isEmpty = true
+      · simp [goodLine_of_coh s text a h, h2]
+      · have hne : s.codecLine.1 ≠ [] := fun h0 => h2 (by rw [h0]; rfl)
+        have hpos : 0 < s.codecLine.1.length := List.length_pos_iff.2 hne
+        have hle : s.codecLine.1.length ≤ (text.drop a).length := by
+          rw [hc.1]; exact firstLine_length_le _ _
+        have hdrop : text.drop (a + s.codecLine.1.length) = (text.drop a).drop s.codecLine.1.length := by
+          rw [List.drop_drop]
+        have := ih (ret ++ s.codecLine.1) s.codecLine.2 (a + s.codecLine.1.length) hc.2.1
+          (by rw [hdrop, List.length_drop]; omega)
+        simp [goodLine_of_coh s text a h, this]
+
+theorem rlAllOk_of_coh (s : SStr) (text : List Char) (h : Coh s text) : rlAllOk s = true := by
+  have hc := SStr.codecLine_spec s text s.tell h
+  have hfuel : (text.drop (s.tell + s.codecLine.1.length)).length + 1 ≤ s.st.data.length + 2 := by
+    have hdata : s.st.data.length = blen text := by rw [h.data]; rfl
+    have := length_le_blen text
+    simp only [List.length_drop]; omega
+  have := rlOk_of_coh (s.st.data.length + 2) s.codecLine.1 s.codecLine.2 text _ hc.2.1 hfuel
+  simp [rlAllOk, goodLine_of_coh s text s.tell h, this]
+
+theorem rollOk_of_coh (s : SStr) (text : List Char) (h : Coh s text) (hch : 0 < s.chunk) : rollOk s = true := by
+  unfold rollOk
+  by_cases hr : s.rolled = true
+  · simp [hr]
+  · have h0 : CohAt s.moved text text.length := by
+      refine ⟨?_, ?_, Nat.le_refl _, ⟨[], 0, ⟨?_, rfl, rfl, rfl⟩, ?_⟩, Or.inl rfl⟩
+      · show ((File.empty : File CU).write s.st.data).data = encode text
+        rw [File.write_empty]; exact h.data
+      · show InRange ((File.empty : File CU).write s.st.data)
+        rw [File.write_empty]; simp [InRange]
+      · show ((File.empty : File CU).write s.st.data).rest = _
+        rw [File.write_empty]; simp [File.rest]
+      · simp [pend, Reader.merge, Reader.reset, SStr.moved]
+    have := travOk_of_coh (s.tell + 1) (s.moved.bseek 0) text 0 s.tell (CohAt_bseek0 _ text _ h0) h.ale (Nat.zero_le _)
+      hch (by omega)
+    simp [this]
+
+theorem writeOk_of_coh (s : SStr) (text cs : List Char) (h : Coh s text) (hch : 0 < s.chunk) : writeOk s cs := by
+  unfold writeOk
+  split
+  · exact ⟨rollOk_of_coh s text h hch, (SStr.rollover_spec s text h hch).1.inr⟩
+  · exact h.inr
+
+/-! ## 7. SpooledStringIO: one call, histories, io.StringIO -/
+
+def outOfS {ρ : Type} (g : ρ → Out Char) (r : Except PyExc ρ × SS) : Except PyExc (Out Char) × SS :=
+  (match r.1 with | .ok v => .ok (g v) | .error e => .error e, r.2)
+
+/-- a public call of the model's history language on the GENERATED definitions of `SpooledStringIO` -/
+def srcStepS (lfuel : Nat) (st : SS) : Op Char → Except PyExc (Out Char) × SS
+  | .write cs => outOfS (fun _ => .unit) (SpooledStringIO.write lfuel st cs)
+  | .read n => outOfS .data (SpooledStringIO.read st n)
+  | .readAll => outOfS .data (SpooledStringIO.read st (-1))
+  | .readline => outOfS .data (SpooledStringIO.readline lfuel st none)
+  | .seek p => outOfS (fun v => .num v.toNat) (SpooledStringIO.seek lfuel st p 0)
+  | .seekCur n => outOfS (fun v => .num v.toNat) (SpooledStringIO.seek lfuel st n 1)
+  | .seekEnd n => outOfS (fun v => .num v.toNat) (SpooledStringIO.seek lfuel st n 2)
+  | .tell => outOfS (fun v => .num v.toNat) (SpooledStringIO.tell st)
+  | .len => outOfS (fun v => .num v.toNat) (SpooledStringIO.len lfuel st)
+  | .rollover => outOfS (fun _ => .unit) (SpooledStringIO.rollover lfuel st)
+  | _ => (.error .Other, st)
+
+/-- the calls whose `SpooledStringIO` methods are translated AND tied (not: `readlines`, `getvalue`, iteration,
+    `writelines`, sized `readline`) -/
+def tiedS : Op Char → Bool
+  | .write _ => true
+  | .read _ => true
+  | .readAll => true
+  | .readline => true
+  | .seek _ => true
+  | .seekCur _ => true
+  | .seekEnd _ => true
+  | .tell => true
+  | .len => true
+  | .rollover => true
+  | _ => false
+
+/-- ONE CALL: on an object standing for a coherent model state (which itself stands for the reference text file `f`),
+    a translated call inside the statement's domain (`okS`) with enough loop fuel raises nothing, returns what
+    `SStr.step` returns and ends in an object standing for the model's next state -/
+theorem src_ss_step_eq_model (lfuel : Nat) (st : SS) (s : SStr) (f : File Char) (op : Op Char) (h : RelS st s)
+    (hs : SRel s f) (ht : tiedS op = true) (hok : okS f op = true) (hfuel : s.st.data.length + 2 ≤ lfuel) :
+    (srcStepS lfuel st op).1 = .ok (s.step op).1 ∧ RelS (srcStepS lfuel st op).2 (s.step op).2 := by
+  obtain ⟨hc, hpos, hch⟩ := hs
+  have hdl : f.data.length ≤ s.st.data.length := by rw [hc.data]; exact length_le_blen f.data
+  have hale : s.tell ≤ f.data.length := hc.ale
+  cases op with
+  | write cs =>
+    have := src_ss_write_eq_model lfuel st s cs h (writeOk_of_coh s f.data cs hc hch) (by omega)
+    exact ⟨by simp [srcStepS, outOfS, this.1, SStr.step], this.2⟩
+  | read n =>
+    have hsz : sizeOf ((n : Nat) : Int) = some n := by simp [sizeOf]
+    have := src_ss_read_eq_model st s n h (goodRead_of_coh s f.data s.tell hc _)
+    rw [hsz] at this
+    exact ⟨by simp [srcStepS, outOfS, this.1, SStr.step], this.2⟩
+  | readAll =>
+    have hsz : sizeOf (-1) = none := by simp [sizeOf]
+    have := src_ss_read_eq_model st s (-1) h (goodRead_of_coh s f.data s.tell hc _)
+    rw [hsz] at this
+    exact ⟨by simp [srcStepS, outOfS, this.1, SStr.step], this.2⟩
+  | readline =>
+    have := src_ss_readline_eq_model lfuel st s h (rlAllOk_of_coh s f.data hc) hfuel
+    exact ⟨by simp [srcStepS, outOfS, this.1, SStr.step], this.2⟩
+  | seek p =>
+    simp only [okS, decide_eq_true_eq] at hok
+    have := src_ss_seek_set_eq_model lfuel st s p h
+      (travOk_of_coh (p + 1) (s.bseek 0) f.data 0 p (CohAt_bseek0 s f.data s.tell hc) hok (Nat.zero_le _) hch (by omega))
+      (by omega)
+    exact ⟨by simp [srcStepS, outOfS, this.1, SStr.step], this.2⟩
+  | seekCur n =>
+    simp only [okS, decide_eq_true_eq] at hok
+    have := src_ss_seek_cur_eq_model lfuel st s n h
+      (travOk_of_coh (n + 1) s f.data s.tell (s.tell + n) hc (by omega) (by omega) hch (by omega)) (by omega)
+    exact ⟨by simp [srcStepS, outOfS, this.1, SStr.step]; omega, this.2⟩
+  | seekEnd n =>
+    simp only [okS, decide_eq_true_eq] at hok
+    have hl := SStr.len_spec s f.data hc hch
+    have := src_ss_seek_end_eq_model lfuel st s n h (lenAllOk_of_coh s f.data hc hch) (by rw [hl.1]; exact hok)
+      (travOk_of_coh (s.len.1 - n + 1) (s.len.2.bseek 0) f.data 0 (s.len.1 - n)
+        (CohAt_bseek0 s.len.2 f.data s.tell hl.2.1) (by rw [hl.1]; omega) (Nat.zero_le _)
+        (by show 0 < s.len.2.chunk; rw [hl.2.2.2]; exact hch) (by omega))
+      hfuel (by omega) (by rw [hl.1]; omega)
+    exact ⟨by simp [srcStepS, outOfS, this.1, SStr.step], this.2⟩
+  | tell =>
+    have := src_ss_tell_eq_model st
+    rw [h.opened] at this
+    refine ⟨?_, ?_⟩
+    · simp [srcStepS, outOfS, this, SStr.step, h.tell]
+    · simpa [srcStepS, outOfS, this, SStr.step] using h
+  | len =>
+    have := src_ss_len_eq_model lfuel st s h (lenAllOk_of_coh s f.data hc hch) hfuel (by omega)
+    exact ⟨by simp [srcStepS, outOfS, this.1, SStr.step], this.2⟩
+  | rollover =>
+    have := src_ss_rollover_eq_model lfuel st s h (rollOk_of_coh s f.data hc hch) (by omega)
+    exact ⟨by simp [srcStepS, outOfS, this.1, SStr.step], this.2⟩
+  | readlineN _ => simp [tiedS] at ht
+  | readlines => simp [tiedS] at ht
+  | getvalue => simp [tiedS] at ht
+  | next => simp [tiedS] at ht
+  | list => simp [tiedS] at ht
+  | drain => simp [tiedS] at ht
+  | writelines _ => simp [tiedS] at ht
+
+/-- a history of public calls on the GENERATED definitions -/
+def srcRunS (lfuel : Nat) (st : SS) : List (Op Char) → List (Except PyExc (Out Char)) × SS
+  | [] => ([], st)
+  | op :: ops =>
+    ((srcStepS lfuel st op).1 :: (srcRunS lfuel (srcStepS lfuel st op).2 ops).1,
+     (srcRunS lfuel (srcStepS lfuel st op).2 ops).2)
+
+/-- the loop fuel covers every state of the history: two more than the UTF-8 length of the reference content -/
+def fuelS (lfuel : Nat) (f : File Char) : List (Op Char) → Bool
+  | [] => true
+  | op :: ops => decide (blen f.data + 2 ≤ lfuel) && fuelS lfuel (Spec.step textSem f op).2 ops
+
+theorem src_ss_run_eq_model (lfuel : Nat) (st : SS) (s : SStr) (f : File Char) (ops : List (Op Char)) (h : RelS st s)
+    (hs : SRel s f) (ht : ∀ op ∈ ops, tiedS op = true) (hv : validS f ops = true) (hf : fuelS lfuel f ops = true) :
+    (srcRunS lfuel st ops).1 = (s.run ops).1.map .ok ∧ RelS (srcRunS lfuel st ops).2 (s.run ops).2 := by
+  induction ops generalizing st s f with
+  | nil => exact ⟨rfl, h⟩
+  | cons op ops ih =>
+    simp only [validS, Bool.and_eq_true] at hv
+    simp only [fuelS, Bool.and_eq_true, decide_eq_true_eq] at hf
+    have hdata : s.st.data.length = blen f.data := by rw [hs.1.data]; rfl
+    have h1 := src_ss_step_eq_model lfuel st s f op h hs (ht op (by simp)) hv.1 (by omega)
+    have hs2 := (SStr.step_spec s f op hs hv.1).2
+    have h2 := ih (srcStepS lfuel st op).2 (s.step op).2 _ h1.2 hs2 (fun o ho => ht o (by simp [ho])) hv.2 hf.2
+    simp only [srcRunS, SStr.run, List.map_cons]
+    exact ⟨by rw [h1.1, h2.1], h2.2⟩
+
+/-- a fresh `SpooledStringIO(max_size=m)` with `READ_CHUNK_SIZE = ch` -/
+def srcInitS (m ch : Nat) : SS := { buffer := CFile.newMem, tell := 0, max_size := m, dir := (), chunk := ch }
+
+theorem RelS_init (m ch : Nat) : RelS (srcInitS m ch) (SStr.init m ch) := ⟨rfl, rfl, rfl, rfl, rfl, rfl, rfl⟩
+
+/-- HISTORIES: from a fresh object, every history of translated calls inside the statement's domain runs on the
+    generated definitions without an exception (no decoding error, no loop out of fuel), returns call by call what the
+    model returns, and ends in an object standing for the model's final state -/
+theorem src_ss_history_refines (lfuel m ch : Nat) (hch : 0 < ch) (ops : List (Op Char))
+    (ht : ∀ op ∈ ops, tiedS op = true) (hv : validS File.empty ops = true) (hf : fuelS lfuel File.empty ops = true) :
+    (srcRunS lfuel (srcInitS m ch) ops).1 = ((SStr.init m ch).run ops).1.map .ok ∧
+    RelS (srcRunS lfuel (srcInitS m ch) ops).2 ((SStr.init m ch).run ops).2 :=
+  src_ss_run_eq_model lfuel _ _ File.empty ops (RelS_init m ch) (SRel_init m ch hch) ht hv hf
+
+/-- hence the property holds of what the SOURCE computes: a history of translated `SpooledStringIO` calls returns
+    exactly what `io.StringIO(newline='')` returns, ends with its position (in code points) and with its content
+    (UTF-8 encoded in the stream) — whatever `max_size` and `READ_CHUNK_SIZE` -/
+theorem src_string_refines_StringIO (lfuel m ch : Nat) (hch : 0 < ch) (ops : List (Op Char))
+    (ht : ∀ op ∈ ops, tiedS op = true) (hv : validS File.empty ops = true) (hf : fuelS lfuel File.empty ops = true) :
+    (srcRunS lfuel (srcInitS m ch) ops).1 = (Spec.run textSem File.empty ops).1.map .ok ∧
+    (srcRunS lfuel (srcInitS m ch) ops).2.tell = ((Spec.run textSem File.empty ops).2.pos : Int) ∧
+    (srcRunS lfuel (srcInitS m ch) ops).2.buffer.st.data = encode (Spec.run textSem File.empty ops).2.data := by
+  have h := src_ss_history_refines lfuel m ch hch ops ht hv hf
+  have hb := string_refines_StringIO m ch hch ops hv
+  exact ⟨by rw [h.1, hb.1], by rw [h.2.tell, hb.2.1], by rw [h.2.stream, hb.2.2]⟩
+
+/-- rolling over (and the chunk size) is invisible in what the source returns -/
+theorem src_string_rollover_invisible (lfuel m₁ m₂ ch₁ ch₂ : Nat) (h₁ : 0 < ch₁) (h₂ : 0 < ch₂) (ops : List (Op Char))
+    (ht : ∀ op ∈ ops, tiedS op = true) (hv : validS File.empty ops = true) (hf : fuelS lfuel File.empty ops = true) :
+    (srcRunS lfuel (srcInitS m₁ ch₁) ops).1 = (srcRunS lfuel (srcInitS m₂ ch₂) ops).1 ∧
+    (srcRunS lfuel (srcInitS m₁ ch₁) ops).2.tell = (srcRunS lfuel (srcInitS m₂ ch₂) ops).2.tell ∧
+    (srcRunS lfuel (srcInitS m₁ ch₁) ops).2.buffer.st.data = (srcRunS lfuel (srcInitS m₂ ch₂) ops).2.buffer.st.data := by
+  have a := src_string_refines_StringIO lfuel m₁ ch₁ h₁ ops ht hv hf
+  have b := src_string_refines_StringIO lfuel m₂ ch₂ h₂ ops ht hv hf
+  exact ⟨by rw [a.1, b.1], by rw [a.2.1, b.2.1], by rw [a.2.2, b.2.2]⟩
+
+/-- non-vacuity: a history with multi-byte text, a rollover by `max_size`, reads, a line, seeks of all three kinds, `len` -/
+def demoOpsS : List (Op Char) :=
+  [.write ['é', 'a', Char.ofNat 10], .seek 1, .read 1, .len, .seekEnd 0, .write ['b'], .seekCur 0, .seek 0, .readline,
+   .tell, .rollover, .readAll]
+example : (∀ op ∈ demoOpsS, tiedS op = true) ∧ validS File.empty demoOpsS = true ∧ fuelS 9 File.empty demoOpsS = true := by
+  decide
+
 end C18
